@@ -20,7 +20,7 @@ PUNCT = ["(", ")", "{", "}", "[", "]", ";", ",", ":", "::", "(:", ":)", "({", "}
          "*/", "//", "0x", "1e", "1.5", "0", "1", "255", "99999999999999999999", "'a'", "'\\n'", "\"str\"",
          "@TXT\nabc\nTXT\n", "@@ARR\nabc\nARR\n", "#include \"inc0.h\"\n", "#define M(x) x+x\n", "M(1)", "#if 1\n",
          "#else\n", "#endif\n", "#ifdef M\n", "#undef M\n", "#pragma strict_types\n", "#elif 0\n", "#if (\n",
-         "function(int a) {", "return", "L\"w\""]
+         "function(int a) {", "return", "L\"w\"", "(: nosuch", "(: later :)", "(: nosuch,", "(:nosuch##x"]
 
 
 def hx(b):
@@ -47,7 +47,10 @@ def src_lines(text):
     return out
 
 
-def mkcase(cid, text, files=(), origin="generated", second=None, kind=""):
+def mkcase(cid, text, files=(), origin="generated", second=None, kind="", pretext=False):
+    if pretext:
+        # the source is handed to the compiler as pre_text of a file that does not exist
+        return E.Case(cid, ["probe"] + src_lines(text) + ["pretext", "probe"], {"origin": origin, "kind": kind})
     lines = ["probe"] + src_lines(text)
     for fn, t in files:
         t = t.encode("latin-1", "replace") if isinstance(t, str) else t
@@ -65,7 +68,7 @@ class C02(Prop):
     title = "Compiling any source text is safe and leaves the compiler reusable"
     lean_modules = ["NV.C02.Props", "NV.C02.Witness"]
     theorems = ["NV.C02.table_writes_in_bounds", "NV.C02.table_cursors_in_allocation", "NV.C02.mem_block_fits",
-                "NV.C02.include_depth_bounded", "NV.C02.include_stack_empty_after_end", "NV.C02.yytext_in_bounds",
+                "NV.C02.include_depth_bounded", "NV.C02.include_stack_empty_after_end", "NV.C02.lexer_flag_clear_after_start", "NV.C02.yytext_in_bounds",
                 "NV.C02.idents_restored", "NV.C02.locals_reset_after_cleanup"]
     witness_theorems = []
     consts = [("maxline", "MAXLINE"), ("defmax", "DEFMAX"), ("startBlockSize", "START_BLOCK_SIZE"),
@@ -222,6 +225,21 @@ class C02(Prop):
         mk("big-string", "string f() { return \"%s\"; }" % ("x" * 60000))
         mk("many-globals", "int %s;" % ids("g", 400))
         mk("class-many-members", "class c { int %s; }" % ids("m", 40))
+        # round 2: lexer function_flag, include path buffer, pre_text length, redeclaration orders
+        mk("functional-undefined-eof", "mixed f() { return (: si")
+        mk("functional-forward", "mixed f() { return (: later :); }\nint later() { return 1; }\n")
+        mk("functional-undefined-comma", "mixed f() { return (: nosuch, 1 :); }\nint g() { return sizeof(({})); }\n")
+        D = "d" * 200
+        mk("include-path-buffer", '#include "%s/i.h"\nint x;\n' % D, [("%s/i.h" % D, '#include "%s.h"\nint y;\n' % ("n" * 920))])
+        mk("include-path-buffer-2", '#include "%s/%s/i.h"\nint x;\n' % (D, D), [("%s/%s/i.h" % (D, D), '#include "%s/%s.h"\nint y;\n' % ("m" * 250, "n" * 600))])
+        mk("call-proto-def", "void g() { f(1); }\nint f(int a);\nint f(int a) { return a; }\n")
+        mk("proto-def-def", "int f(int a);\nint f(int a) { return a; }\nint f(int a) { return a; }\nvoid h() { f(2); }\n")
+        for n in (4900, 4990, 4995, 5000, 6200, 9000, 9985, 12000):
+            body = ("int f0() { return 1; }\n" + "".join("int v%d;\n" % i for i in range(n // 8)))[:n]
+            body = body[:body.rfind("\n") + 1]
+            B.append(mkcase("b-pretext-%d" % n, body, (), "boundary", pretext=True))
+        for n in (127, 128, 130, 200, 255, 256, 300):
+            mk("block-%d" % n, "void f() { int q; { int %s; } q = 1; }" % ids("a", n))
         mk("two-sources", "void f() { int time; { int time; } }", second="int g() { return time(); }")
         mk("empty", "")
         mk("nul-bytes", "int x;\x00\x00 int y;\n")
@@ -341,7 +359,7 @@ class C02(Prop):
             elif k == "err":
                 out.append(rng.choice(["+ ; ", ") ; ", "int ; ", "} ", "( ; ", "return return; ", "@ ", "1 = ; ", "else ; "]))
             elif k == "fnl":
-                out.append("%s = (: %s :); " % (self.g_name(rng, st), rng.choice(["$1 + 1", "time", "$1, $2", "(: $1 :)", "sizeof($1)", "$(1)", "$(%s)" % self.g_name(rng, st)])))
+                out.append("%s = (: %s :); " % (self.g_name(rng, st), rng.choice(["$1 + 1", "time", "$1, $2", "(: $1 :)", "sizeof($1)", "$(1)", "$(%s)" % self.g_name(rng, st), "nosuch%d" % rng.below(3), "nosuch, 1", "fn0", "fn1 :) + (: fn2"])))
             else:
                 out.append("undef%d = undef%d + 1; " % (rng.below(5), rng.below(5)))
         if rng.chance(1, 2):
@@ -381,6 +399,10 @@ class C02(Prop):
                 body = "".join('#include "missing%d_%d.h"\n' % (i, j) for j in range(missing if i == 0 else 0))
                 body += '#include "i%d.h"\n' % (i + 1) + ("#if 1\n" if rng.chance(1, 6) else "") + "int iv%d;\n" % i
                 files.append(("i%d.h" % i, body))
+            if rng.chance(1, 4):
+                dd = rng.choice("pq") * rng.choice([60, 100, 150, 200, 250])
+                files.append(("%s/deep.h" % dd, '#include "%s.h"\nint deepv;\n' % (rng.choice("rs") * rng.choice([700, 800, 900, 920, 924, 925, 1000]))))
+                parts.append('#include "%s/deep.h"\n' % dd)
             files.append(("i%d.h" % depth, ('#include "i0.h"\n' if selfinc else "") + rng.choice(["int last;\n", "int last\n", "#if 0\n", "void lf() { int a; + }\n"])))
             parts.append('#include "i0.h"\n')
         elif kind == "pre":
@@ -437,6 +459,8 @@ class C02(Prop):
         second = None
         if rng.chance(1, 5):
             second = "int probe2() { return time() + sizeof(({ })) + vsimul_marker(); }\n"
+        if not files and second is None and rng.chance(1, 12):
+            return mkcase(cid, text, kind="grammar-" + kind + "-pretext", pretext=True)
         return mkcase(cid, text, files, second=second, kind="grammar-" + kind)
 
     def generate(self, rng, n, tier):
